@@ -163,8 +163,10 @@ class C16:
     TRUSTED = ["np.linalg.pinv / solve are oracles (contract: the unique solution of an invertible system); the model run realises them by an "
                "exact closed-form / Gauss-Jordan solve and the correspondence compares with numpy",
                "scipy sqrtm (process_fidelity), eigh (_cp_proj), log (_cost) and the pgdb / _cptp_proj iterations are NOT modelled: MLE positivity, "
-               "trace preservation and the >= 0.99 fidelity are oracle tests only",
-               "the photonic level (dual-rail frequencies = Born probabilities of V rho V^+) is exercised by the oracle, not proved"]
+               "trace preservation and the >= 0.99 fidelity are oracle tests only (the oracle recomputes the fidelity against the pure reference without sqrtm)",
+               "the photonic level (dual-rail frequencies = Born probabilities of V rho V^+) is exercised by the oracle, not proved",
+               "theorems (Properties/C16.v): LI = choi_from_unitary(V) and the gate-fidelity formula for every n >= 1 and every V; MLE forward model, "
+               "linearity, gradient identity, Hermitian rows, TP projection for every n; *_pinned regression theorems for the repaired findings F8/F9"]
     ASSUMPTIONS = ["the experiment callback returns for every (circuit, input) the frequencies of the valid dual-rail outcomes (unit total)",
                    "V is the dual-rail action of the base circuit computed from Simulator amplitudes and normalised (post-selected gates succeed with a uniform probability)"]
     CHUNK = 2
